@@ -18,6 +18,7 @@ REGISTRY = {
     "C10": "filtering",
     "C11": "idmatching",
     "C12": "sensing",
+    "C13": "history",
     "C14": "labels",
     "C15": "config",
     "C17": "timeline",
